@@ -551,6 +551,15 @@ def const_eval(e):
     return None
 
 
+def bool_fold(e):
+    """`!true` / `!false` over literal booleans (e.g. `!matches!(..)` on a path where the match is decided)"""
+    if isinstance(e, tuple) and e[0] == 'un' and e[1] == 'Not':
+        x = bool_fold(e[2])
+        if x[0] == 'const' and x[1] in (0, 1):
+            return ('const', 1 - x[1])
+    return e
+
+
 def strip_casts(e):
     while isinstance(e, tuple) and e[0] == 'cast':
         e = e[1]
